@@ -303,10 +303,15 @@ func (h *histCtx) failf(class, format string, a ...any) {
 // cholDepth is the history depth for a start family and size.
 func cholDepth(g *vlib.G, fam string, n int) int {
 	d := 5
-	if g.Thorough() && fam == "spd" && n <= 2 {
+	if g.Thorough() && fam == "spd" && n == 2 {
 		d = 6
 	}
 
+	if fam == "ident" && !g.Thorough() {
+		// exact-arithmetic start (the boundary operations are decided exactly by the
+		// implementation too): one level less in the quick tier.
+		d = 4
+	}
 	return d
 }
 
